@@ -82,7 +82,7 @@ func Pack(
 	// Close all the intermediate writer layers to ensure they've flushed.
 	err = zipWriter.Close()
 	if err != nil {
-		return wareID, err
+		return wareID, Errorf(rio.ErrWarehouseUnwritable, "error while writing pack: %s", err)
 	}
 
 	// If we made it all the way with no errors, commit.
@@ -148,7 +148,7 @@ func packZip(
 			tee := io.MultiWriter(fw, hasher)
 			_, err := tee.Write([]byte(fmeta.Linkname))
 			if err != nil {
-				return err
+				return Errorf(rio.ErrWarehouseUnwritable, "error while writing pack: %s", err)
 			}
 			bucket.AddRecord(*fmeta, hasher.Sum(nil))
 		} else if file == nil {
@@ -160,7 +160,7 @@ func packZip(
 			tee := io.MultiWriter(fw, hasher)
 			_, err := io.Copy(tee, file)
 			if err != nil {
-				return err
+				return Errorf(rio.ErrWarehouseUnwritable, "error while writing pack: %s", err)
 			}
 			bucket.AddRecord(*fmeta, hasher.Sum(nil))
 		}
@@ -168,6 +168,10 @@ func packZip(
 		return nil
 	}
 	if err := fs.Walk(afs, preVisit, nil); err != nil {
+		if _, ok := Category(err).(rio.ErrorCategory); !ok {
+			// Errors from reading the fileset itself (permissions, vanishing files) carry fs categories.
+			err = Errorf(rio.ErrPackInvalid, "error while reading fileset to pack: %s", err)
+		}
 		return api.WareID{}, err
 	}
 
